@@ -42,6 +42,11 @@ enum { SLOT = 512, NSLOTS = 73 * 6, LOGICAL_BASE = 16 * MEMORY_LEAK_HASH_TABLE_S
 static char* g_base = 0;                 // arena base, multiple of 1168
 static bool g_live[NSLOTS];              // slot currently handed out
 static size_t g_usersize[NSLOTS];        // user size of the block in the slot (set by the operation)
+// harness-side shadow of "the detector holds a record for the block in this slot" (with the period the record was
+// stamped with): only used to refuse client misuse that is outside every property (giving a block back to the
+// underlying allocator, or writing into it, while the detector still tracks it / after it is gone)
+static bool g_tracked[NSLOTS];
+static int g_recperiod[NSLOTS];
 static size_t g_reqsize[NSLOTS];         // size the underlying request had
 static int g_pending = -1;               // slot the next underlying request gets
 static bool g_pending_null = false;      // the next underlying request is answered NULL
@@ -113,7 +118,7 @@ static void seam_free(void* p) {
             if (g_raw_free) strcpy(hx, "raw");
             if (g_noted_size >= 0 && g_print_sizes) logf("ufree %lu %ld %s", addr_of(p), g_noted_size, hx);
             else logf("ufree %lu - %s", addr_of(p), hx);
-            g_live[s] = false;
+            g_live[s] = false; g_tracked[s] = false;
             LD_UNPOISON(p, SLOT);
             memset(p, 0xDD, SLOT);                 // the allocator reuses the memory: nothing in it survives
             LD_POISON(p, SLOT);
@@ -143,7 +148,7 @@ static void* seam_realloc(void* mem, size_t size) {
         memset(p, 0xEE, SLOT);
         memcpy(p, mem, old < size ? old : size);
         if (slot_base(mem)) {
-            g_live[slot_of(mem)] = false;
+            g_live[slot_of(mem)] = false; g_tracked[slot_of(mem)] = false;
             LD_UNPOISON(mem, SLOT); memset(mem, 0xDD, SLOT); LD_POISON(mem, SLOT);
         }
     }
@@ -252,7 +257,7 @@ struct Harness {
         char* raw = (char*) ::malloc((size_t) SLOT * NSLOTS + 2 * LOGICAL_BASE);
         unsigned long r = (unsigned long) raw;
         g_base = raw + (LOGICAL_BASE - r % LOGICAL_BASE) % LOGICAL_BASE;
-        memset(g_live, 0, sizeof(g_live));
+        memset(g_live, 0, sizeof(g_live)); memset(g_tracked, 0, sizeof(g_tracked));
         LD_POISON(g_base, (size_t) SLOT * NSLOTS);
         PlatformSpecificMalloc = seam_malloc; PlatformSpecificFree = seam_free; PlatformSpecificRealloc = seam_realloc;
         det = new MemoryLeakDetector(&reporter);
@@ -337,6 +342,12 @@ struct Harness {
 
     // __LINE__ is an int; the texts print line numbers through (int)
     static bool line_ok(const std::string& w) { return vh::to_u64(w) <= 2147483647ULL && w.size() <= 10; }
+
+    // the detector made a record for the block it just returned
+    void track(const void* p) { if (p && slot_base(p)) { g_tracked[slot_of(p)] = true; g_recperiod[slot_of(p)] = period; } }
+    static bool shadow_in_period(int q, int rp) {
+        return q == mem_leak_period_all || rp == q || (rp != mem_leak_period_disabled && q == mem_leak_period_enabled);
+    }
 
     void fill_user(char* p, size_t size) { if (p && size) memset(p, 0xA5, size); }
 
@@ -423,7 +434,7 @@ struct Harness {
                 char* p = det->allocMemory(allocs[ai].a, size, w[5].c_str(), (size_t) vh::to_u64(w[6]), sep);
                 g_in_det = false;
                 g_node_null = false; g_raw_free = false;
-                if (p) { Label l; l.addr = addr_of(p); l.size = size; labels[w[1]] = l; if (slot_base(p)) g_usersize[slot_of(p)] = size; fill_user(p, size); }
+                if (p) { Label l; l.addr = addr_of(p); l.size = size; labels[w[1]] = l; if (slot_base(p)) g_usersize[slot_of(p)] = size; fill_user(p, size); track(p); }
                 logf("ret %lu", addr_of(p));
                 flush();
             }
@@ -455,7 +466,7 @@ struct Harness {
                 g_in_det = true;
                 char* p = det->reallocMemory(allocs[ai].a, ptr_of(addr), size, w[7].c_str(), (size_t) vh::to_u64(w[8]), sep);
                 g_in_det = false;
-                if (p) { Label l; l.addr = addr_of(p); l.size = size; labels[w[4]] = l; if (slot_base(p)) g_usersize[slot_of(p)] = size; fill_user(p, size); }
+                if (p) { Label l; l.addr = addr_of(p); l.size = size; labels[w[4]] = l; if (slot_base(p)) g_usersize[slot_of(p)] = size; fill_user(p, size); track(p); }
                 logf("ret %lu", addr_of(p));
                 flush();
             }
@@ -487,17 +498,25 @@ struct Harness {
                 vh::emit("> clear %s", w[1].c_str());
                 det->clearAllAccounting((MemLeakPeriod) period_of(w[1]));
                 // blocks whose record was dropped stay allocated in the arena (the detector no longer knows them)
+                for (int k = 0; k < NSLOTS; k++)
+                    if (g_live[k] && g_tracked[k] && shadow_in_period(period_of(w[1]), g_recperiod[k])) g_tracked[k] = false;
             }
             else if (o == "drop" && w.size() >= 2) {
                 // the client gives a block whose record was cleared back to the underlying allocator itself
                 // (the detector is not involved; it must not know the address any more)
                 std::map<std::string, Label>::iterator it = labels.find(w[1]);
                 char* p = it == labels.end() ? 0 : ptr_of(it->second.addr);
-                if (!(p && slot_base(p) && g_live[slot_of(p)])) { vh::emit("> skip"); continue; }
+                // never while the detector still tracks the block (it would read freed memory in its next report): that is
+                // client misuse outside the property, as is dropping a block twice
+                if (!(p && slot_base(p) && g_live[slot_of(p)] && !g_tracked[slot_of(p)])) { vh::emit("> skip"); continue; }
                 vh::emit("> drop %lu", it->second.addr);
                 g_in_det = false; seam_free(p); g_loglen = 0; g_log[0] = 0;
             }
-            else if (o == "mark" && w.size() == 1) { vh::emit("> mark"); det->markCheckingPeriodLeaksAsNonCheckingPeriod(); }
+            else if (o == "mark" && w.size() == 1) {
+                vh::emit("> mark"); det->markCheckingPeriodLeaksAsNonCheckingPeriod();
+                for (int k = 0; k < NSLOTS; k++)
+                    if (g_tracked[k] && g_recperiod[k] == mem_leak_period_checking) g_recperiod[k] = mem_leak_period_enabled;
+            }
             else if (o == "report" && w.size() >= 2 && period_of(w[1]) >= 0) { vh::emit("> report %s", w[1].c_str()); report(period_of(w[1])); }
             else if (o == "write" && w.size() >= 4 && c06) {
                 // write <label> <off> <bytehex>: the client stores one byte at user+off (user bytes or guard bytes of a live block)
@@ -505,7 +524,7 @@ struct Harness {
                 size_t off = (size_t) vh::to_u64(w[2]); std::string b = vh::unhex(w[3]);
                 if (it == labels.end() || w[3].size() != 2 || vh::hexval(w[3][0]) < 0 || vh::hexval(w[3][1]) < 0) { vh::emit("> skip"); continue; }
                 char* p = ptr_of(it->second.addr);
-                if (!(slot_base(p) && g_live[slot_of(p)] && it->second.size == g_usersize[slot_of(p)] &&
+                if (!(slot_base(p) && g_live[slot_of(p)] && g_tracked[slot_of(p)] && it->second.size == g_usersize[slot_of(p)] &&
                       off < it->second.size + (size_t) MemoryLeakDetector::memory_corruption_buffer_size)) { vh::emit("> skip"); continue; }
                 vh::emit("> write %lu %lu %s", it->second.addr, (unsigned long) off, w[3].c_str());
                 p[off] = b[0];
@@ -539,7 +558,7 @@ struct Harness {
                 else if (o == "gnewarray") p = ::operator new[](size, w[4].c_str(), (size_t) vh::to_u64(w[5]));
                 else p = cpputest_malloc_location(size, w[4].c_str(), (size_t) vh::to_u64(w[5]));
                 global_off();
-                if (p) { Label l; l.addr = addr_of(p); l.size = size; labels[w[1]] = l; if (slot_base(p)) g_usersize[slot_of(p)] = size; fill_user((char*) p, size); }
+                if (p) { Label l; l.addr = addr_of(p); l.size = size; labels[w[1]] = l; if (slot_base(p)) g_usersize[slot_of(p)] = size; fill_user((char*) p, size); track(p); }
                 logf("ret %lu", addr_of(p));
                 flush();
             }
